@@ -9,8 +9,11 @@ COLS = ['a', 'b', 'c']
 
 def catalogs():
     """-> list of (name, kwargs for plan_query / QueryPlanner)"""
-    preds_list = [{'name': 'pred', 'integration_name': 'proj'}, {'name': 'pred2', 'integration_name': 'proj', 'to_predict': ['c']}]
-    preds_legacy = {'pred': {'integration_name': 'proj'}, 'pred2': {'integration_name': 'proj', 'to_predict': 'c'}}
+    # pred3: the target is given as a plain string whose name contains the names of other columns (b, c)
+    preds_list = [{'name': 'pred', 'integration_name': 'proj'}, {'name': 'pred2', 'integration_name': 'proj', 'to_predict': ['c']},
+                  {'name': 'pred3', 'integration_name': 'proj', 'to_predict': 'bc'}]
+    preds_legacy = {'pred': {'integration_name': 'proj'}, 'pred2': {'integration_name': 'proj', 'to_predict': 'c'},
+                    'pred3': {'integration_name': 'proj', 'to_predict': 'bc'}}
     return [
         ('names', dict(integrations=['int1', 'int2', 'int3', 'proj'], predictor_metadata=copy.deepcopy(preds_list))),
         ('dicts', dict(integrations=[{'name': 'int1', 'class_type': 'sql', 'type': 'data'},
@@ -162,7 +165,21 @@ def gen_statement(rng, features):
         return f'with {cname} as ({s1}) select * from {cname} {tail}', {'kind': 'cte'}
     if 'nested' in features and k < 0.44:
         s1, m1 = gen_select(rng, features - {'limit', 'order'})
-        return f'select s.a from ({s1}) as s where s.b = 1 limit 2', {'kind': 'nested'}
+        n2, _ = tref(rng)
+        tail = rng.choice(['where s.b = 1 limit 2', 'where s.b = 1 limit 2', f'where s.a in (select b from {n2})',
+                           f'where s.b = 1 and s.a > (select min(a) from {n2})', f'where s.a not in (select a from {n2} where b = 1) limit 3'])
+        tg = rng.choice(['s.a', 's.a', f's.a, (select max(b) from {n2}) as m'])
+        return f'select {tg} from ({s1}) as s {tail}', {'kind': 'nested'}
+    if 'subquery' in features and 0.44 <= k < 0.50:
+        # a sub-select that joins a table of the outer integration with a table / view / model that lives elsewhere
+        integ = rng.choice(list(TABLES))
+        outer, t = tref(rng, integ)
+        inner, _ = tref(rng, integ)
+        other = rng.choice(['proj.v1 as v on q.a = v.a', 'proj.v1 as v on q.b = v.a', f'{tref(rng)[0]} as v on q.a = v.a', 'proj.pred as v'])
+        sub = f'select {rng.choice(["v.a", "q.a"])} from {inner} as q join {other}'
+        shape = rng.choice(['select * from {o} where a in ({s})', 'select a, ({s} limit 1) as m from {o}', 'delete from {o} where a in ({s})',
+                            'select * from {o} where a in ({s}) and b = 1'])
+        return shape.format(o=outer, s=sub), {'kind': 'mixed_subquery'}
     return gen_select(rng, features)
 
 
@@ -191,4 +208,17 @@ EDGE_STATEMENTS = [
     "update int1.t1 set a = 1 from (select * from int2.t2) as s where s.a = t1.a",
     "delete from int1.t1 where a in (select a from int2.t2 where b = 1)",
     "create table int2.copy1 as select * from int1.t1 join int3.t3 on t1.a = t3.a",
+    # an outer select that runs over a fetched frame and has sub-selects of its own
+    "select * from (select * from int1.t1) as x where x.a in (select b from int2.t2)",
+    "select x.a, (select max(b) from int2.t2) as m from (select * from int1.t1) as x",
+    "select * from (select * from int1.t1) as x where x.a in (select b from int2.t2) and x.b > (select min(b) from int3.t3)",
+    "insert into int3.t3 (a) select x.a from (select * from int1.t1) as x where x.a in (select b from int2.t2)",
+    "create table int3.copy2 as select x.a from (select * from int1.t1) as x where x.a in (select b from int2.t2)",
+    # sub-selects that mix a table of the outer integration with something that lives elsewhere
+    "select * from int1.t1 where a in (select v.a from int1.u1 as q join proj.v1 as v on q.a = v.a)",
+    "select a, (select max(v.a) from int1.u1 as q join proj.v1 as v on q.a = v.a) as m from int1.t1",
+    "delete from int1.t1 where a in (select v.a from int1.u1 as q join proj.v1 as v on q.a = v.a)",
+    "select * from int1.t1 where a in (select q.a from int1.u1 as q join int2.t2 as z on q.a = z.a)",
+    "select * from int1.t1 where a in (select q.a from int1.u1 as q join proj.pred as m)",
+    "delete from int1.t1 where a in (select q.a from int1.u1 as q join proj.pred as m)",
 ]
